@@ -147,8 +147,10 @@ class C11(Prop):
             fields['*'] = {'aggregate': rng.choice(['first', 'last', 'any'])}
         if rng.random() < 0.07:
             fields = {}          # a semi-join: nothing is copied over, the source only decides which target rows stay
-        dedup = rng.random() < 0.2
-        spec = {'source_key': sk, 'target_key': None if dedup else tk, 'fields': fields, 'mode': rng.choice(['inner', 'half-outer', 'half-outer', 'full-outer']),
+        dedup = rng.random() < 0.2 and not big
+        # (with > 10240 source keys the outputs that are compared as multisets - full-outer extras, deduplication - would need a
+        # quadratic one-to-one matching: the big index is exercised through the ordered target lookups of inner / half-outer)
+        spec = {'source_key': sk, 'target_key': None if dedup else tk, 'fields': fields, 'mode': rng.choice(['inner', 'half-outer', 'half-outer', 'full-outer'] if not big else ['inner', 'half-outer']),
                 'source_delete': rng.random() < 0.7}
         return {'source': source, 'target': target, 'spec': spec, 'post_edit': (not dedup) and (not spec['source_delete']) and rng.random() < 0.6, 'kv': rng.sample([1, 2, 3, 7, 10240], 2) if not big else [10240, 10240]}
 
@@ -253,6 +255,9 @@ class C11(Prop):
         # bipartite matching (the model rows may carry freedoms such as 'any', so greedy assignment is not enough)
         adj = [[j for j, e in enumerate(exp) if M.row_matches(g, e, names) is None] for g in got]
         match = {}
+
+        import sys
+        sys.setrecursionlimit(max(sys.getrecursionlimit(), 4 * len(got) + 1000))
 
         def aug(i, seen):
             for j in adj[i]:
